@@ -1,3 +1,93 @@
+import BU.Py
 import BU.Model.Address
+import BU.Properties.C02
+import BU.Properties.C20
+/-!
+# C12 — locking scripts and script-hash addresses commit to the intended key/script
+
+The template bytes are evaluated through the *generated* opcode dictionaries and the push-form tie (C02), so a
+wrong template token or table entry breaks a proof.
+-/
 namespace C12
+open Py Spec Model
+
+/-! ### lookups in the generated opcode dictionary and the direct-push form -/
+
+theorem lk_dup : C02.genTables.opCodes.lookup "OP_DUP" = some [0x76] := by decide +kernel
+theorem lk_hash160 : C02.genTables.opCodes.lookup "OP_HASH160" = some [0xa9] := by decide +kernel
+theorem lk_equalverify : C02.genTables.opCodes.lookup "OP_EQUALVERIFY" = some [0x88] := by decide +kernel
+theorem lk_checksig : C02.genTables.opCodes.lookup "OP_CHECKSIG" = some [0xac] := by decide +kernel
+theorem lk_equal : C02.genTables.opCodes.lookup "OP_EQUAL" = some [0x87] := by decide +kernel
+theorem lk_0 : C02.genTables.opCodes.lookup "OP_0" = some [0x00] := by decide +kernel
+theorem lk_1 : C02.genTables.opCodes.lookup "OP_1" = some [0x51] := by decide +kernel
+
+theorem push_direct (h : Bytes) (n : Nat) (hh : h.length = n) (hn : n ≤ 75) :
+    opPushData h = .ok (UInt8.ofNat n :: h) := by
+  subst hh
+  have h1 : h.length < 2 ^ 32 := by omega
+  unfold opPushData minimalPush
+  simp only [h1, hn, if_true]
+
+/-- DUP HASH160 <h> EQUALVERIFY CHECKSIG -/
+theorem p2pkh_bytes (h : Bytes) (hh : h.length = 20) :
+    scriptBytes C02.genTables (spkP2pkh h) = .ok ([0x76, 0xa9, 0x14] ++ h ++ [0x88, 0xac]) := by
+  simp only [spkP2pkh, scriptBytes, tokBytes, lk_dup, lk_hash160, lk_equalverify, lk_checksig, push_direct h 20 hh (by omega), bind, Except.bind,
+    pure, Except.pure, List.append_nil]
+  rfl
+/-- HASH160 <h> EQUAL -/
+theorem p2sh_bytes (h : Bytes) (hh : h.length = 20) :
+    scriptBytes C02.genTables (spkP2sh h) = .ok ([0xa9, 0x14] ++ h ++ [0x87]) := by
+  simp only [spkP2sh, scriptBytes, tokBytes, lk_hash160, lk_equal, push_direct h 20 hh (by omega), bind, Except.bind,
+    pure, Except.pure, List.append_nil]
+  rfl
+/-- 0 <20-byte program> -/
+theorem p2wpkh_bytes (h : Bytes) (hh : h.length = 20) :
+    scriptBytes C02.genTables (spkP2wpkh h) = .ok ([0x00, 0x14] ++ h) := by
+  simp only [spkP2wpkh, scriptBytes, tokBytes, lk_0, push_direct h 20 hh (by omega), bind, Except.bind,
+    pure, Except.pure, List.append_nil]
+  rfl
+/-- 0 <32-byte program> -/
+theorem p2wsh_bytes (h : Bytes) (hh : h.length = 32) :
+    scriptBytes C02.genTables (spkP2wsh h) = .ok ([0x00, 0x20] ++ h) := by
+  simp only [spkP2wsh, scriptBytes, tokBytes, lk_0, push_direct h 32 hh (by omega), bind, Except.bind,
+    pure, Except.pure, List.append_nil]
+  rfl
+/-- 1 <32-byte key> -/
+theorem p2tr_bytes (h : Bytes) (hh : h.length = 32) :
+    scriptBytes C02.genTables (spkP2tr h) = .ok ([0x51, 0x20] ++ h) := by
+  simp only [spkP2tr, scriptBytes, tokBytes, lk_1, push_direct h 32 hh (by omega), bind, Except.bind,
+    pure, Except.pure, List.append_nil]
+  rfl
+
+/-- script-hash addresses commit to RIPEMD160(SHA256(bytes)) of the script's exact byte encoding … -/
+theorem p2sh_commits (sha256 : Bytes → Bytes) (T : Tables) (s : List Tok) (h : Bytes)
+    (hs : scriptToHash160 sha256 C20.genTabs T s = .ok h) :
+    ∃ b, scriptBytes T s = .ok b ∧ h = Spec.Rmd.ripemd160 (sha256 b) := by
+  unfold scriptToHash160 hash160 at hs
+  cases hb : scriptBytes T s with
+  | error e => simp [hb, bind, Except.bind] at hs
+  | ok b =>
+    simp only [hb, bind, Except.bind, pure, Except.pure, Except.ok.injEq] at hs
+    exact ⟨b, rfl, by rw [← hs, C20.ripemd_eq_spec]⟩
+/-- … respectively SHA256(bytes) -/
+theorem p2wsh_commits (sha256 : Bytes → Bytes) (T : Tables) (s : List Tok) (h : Bytes)
+    (hs : scriptToSha256 sha256 T s = .ok h) :
+    ∃ b, scriptBytes T s = .ok b ∧ h = sha256 b := by
+  unfold scriptToSha256 at hs
+  cases hb : scriptBytes T s with
+  | error e => simp [hb, bind, Except.bind] at hs
+  | ok b =>
+    simp only [hb, bind, Except.bind, pure, Except.pure, Except.ok.injEq] at hs
+    exact ⟨b, rfl, hs.symm⟩
+
+/-- the helpers' output equals the locking script of the address created from the same script -/
+theorem helpers_eq_address_script (sha256 : Bytes → Bytes) (tb : Rmd.Tabs) (T : Tables) (s : List Tok) :
+    toP2shSpk sha256 tb T s = (scriptToHash160 sha256 tb T s).map spkP2sh ∧
+    toP2wshSpk sha256 T s = (scriptToSha256 sha256 T s).map spkP2wsh := by
+  constructor
+  · unfold toP2shSpk
+    cases scriptToHash160 sha256 tb T s <;> rfl
+  · unfold toP2wshSpk
+    cases scriptToSha256 sha256 T s <;> rfl
+
 end C12
